@@ -123,6 +123,12 @@ def corpus():
         {'target': 6, 'spec': ['Or', [['MExpr', ['M'], '>', ['Lit', 5]], ['Tuple', [['Fn', ['probe', 1]], ['M']]]], None, 'op']},
         {'target': 0, 'spec': ['Or', [['M'], ['Val', None]], None, 'op']},
         {'target': 3, 'spec': ['Switch', [[['MExpr', ['M'], '>', ['Lit', 5]], ['Val', 'big']], [['M'], ['Val', 'small']]], None]},
+        # a key passes and ITS value spec fails: that error is the outcome, default or not, and no later case is consulted
+        {'target': 10, 'spec': ['Switch', [[['MExpr', ['M'], '>', ['Lit', 5]], ['Str', 'zz__missing']], [['Match', ['Type', 'int'], None], ['Val', 'later']]], ['Lit', 'dflt']]},
+        {'target': 10, 'spec': ['Switch', [[['MExpr', ['M'], '>', ['Lit', 5]], ['Match', ['Lit', 'never-equal'], None]]], ['Lit', 'dflt']]},
+        {'target': 10, 'spec': ['Switch', [[['MExpr', ['M'], '<', ['Lit', 5]], ['Val', 'small']], [['Match', ['Type', 'int'], None], ['Fn', ['raise', 'ValueError']]]], ['Lit', 'dflt']]},
+        {'target': 'a', 'spec': ['Switch', [[['MExpr', ['M'], '>', ['Lit', 5]], ['Str', 'zz__missing']]], ['Lit', 'dflt']]},
+        {'target': 10, 'spec': ['Or', [['Switch', [[['MExpr', ['M'], '>', ['Lit', 5]], ['Str', 'zz__missing']]], ['Lit', 'dflt']], ['Val', 'or-branch']], None, 'ctor']},
         {'target': 'a', 'spec': ['MExpr', ['M'], '>', ['Lit', 5]]},
         {'target': 4, 'spec': ['Check', None, ['int'], [], [['even']], [], None]},
         {'target': 5, 'spec': ['Check', None, [], [], [['even']], [], ['Lit', 'dflt']]},
